@@ -130,7 +130,7 @@ end Mont
 /-! ### structured blocks -/
 
 /-- `a × b` product row: five words -/
-def rowF (a : Nat) (b : W4) : W5 :=
+def rowF (a : Nat) (b : W4) : Scalar.W5 :=
   let p3 := Bits.Mul64 a b.w3
   let p2 := Bits.Mul64 a b.w2
   let p1 := Bits.Mul64 a b.w1
@@ -144,7 +144,7 @@ def rowF (a : Nat) (b : W4) : W5 :=
 def qF (x : Nat) : Nat := (Bits.Mul64 x 15183074304973897243).2
 
 /-- `q × l` row: five words -/
-def qrowF (q : Nat) : W5 :=
+def qrowF (q : Nat) : Scalar.W5 :=
   let p3 := Bits.Mul64 q 1152921504606846976
   let p1 := Bits.Mul64 q 1503914060200516822
   let p0 := Bits.Mul64 q 6346243789798364141
@@ -152,7 +152,7 @@ def qrowF (q : Nat) : W5 :=
   ⟨p0.2, a1.1, U.add 64 a1.2 p1.1, p3.2, p3.1⟩
 
 /-- 5-word accumulate: sum words and carry out -/
-def acc5 (c r : W5) : W5 × Nat :=
+def acc5 (c r : Scalar.W5) : Scalar.W5 × Nat :=
   let a0 := Bits.Add64 c.v0 r.v0 0
   let a1 := Bits.Add64 c.v1 r.v1 a0.2
   let a2 := Bits.Add64 c.v2 r.v2 a1.2
@@ -161,7 +161,7 @@ def acc5 (c r : W5) : W5 × Nat :=
   (⟨a0.1, a1.1, a2.1, a3.1, a4.1⟩, a4.2)
 
 /-- 4-word accumulate (the fifth word of `r` is not added here) -/
-def acc4 (c : W4) (r : W5) : W4 × Nat :=
+def acc4 (c : W4) (r : Scalar.W5) : W4 × Nat :=
   let a0 := Bits.Add64 c.w0 r.v0 0
   let a1 := Bits.Add64 c.w1 r.v1 a0.2
   let a2 := Bits.Add64 c.w2 r.v2 a1.2
@@ -169,7 +169,7 @@ def acc4 (c : W4) (r : W5) : W4 × Nat :=
   (⟨a0.1, a1.1, a2.1, a3.1⟩, a3.2)
 
 /-- add the `q·l` row and shift one word down (5 words; `v4` is the carry out) -/
-def red5 (s m : W5) : W5 :=
+def red5 (s m : Scalar.W5) : Scalar.W5 :=
   let c0 := (Bits.Add64 s.v0 m.v0 0).2
   let a1 := Bits.Add64 s.v1 m.v1 c0
   let a2 := Bits.Add64 s.v2 m.v2 a1.2
@@ -178,15 +178,15 @@ def red5 (s m : W5) : W5 :=
   ⟨a1.1, a2.1, a3.1, a4.1, a4.2⟩
 
 /-- add the low four words of the `q·l` row and shift one word down (`w3` is the carry out) -/
-def red4 (s : W4) (m : W5) : W4 :=
+def red4 (s : W4) (m : Scalar.W5) : W4 :=
   let c0 := (Bits.Add64 s.w0 m.v0 0).2
   let a1 := Bits.Add64 s.w1 m.v1 c0
   let a2 := Bits.Add64 s.w2 m.v2 a1.2
   let a3 := Bits.Add64 s.w3 m.v3 a2.2
   ⟨a1.1, a2.1, a3.1, a3.2⟩
 
-theorem rowF_spec (a : Nat) (b : W4) (ha : a < 2^64) (hb : Words b) :
-    Words5 (rowF a b) ∧ eval5 (rowF a b) = a * eval b := by
+theorem rowF_spec (a : Nat) (b : W4) (ha : a < 2^64) (hb : Scalar.Words b) :
+    Scalar.Words5 (rowF a b) ∧ Scalar.eval5 (rowF a b) = a * eval b := by
   obtain ⟨b0, b1, b2, b3⟩ := b
   obtain ⟨h0, h1, h2, h3⟩ := hb
   simp only at h0 h1 h2 h3
@@ -199,16 +199,16 @@ theorem rowF_spec (a : Nat) (b : W4) (ha : a < 2^64) (hb : Words b) :
   exact row
 
 
-theorem L_lit : L = 7237005577332262213973186563042994240857116359379907606001950938285454250989 := by
+theorem Scalar.L_lit : L = 7237005577332262213973186563042994240857116359379907606001950938285454250989 := by
   decide
 
 theorem qF_lt (x : Nat) : qF x < 2^64 := Nat.mod_lt _ (by norm_num)
 
 theorem qrowF_spec (q : Nat) (hq : q < 2^64) :
-    Words5 (qrowF q) ∧ (qrowF q).v4 < 2^60 ∧ eval5 (qrowF q) = q * L := by
+    Scalar.Words5 (qrowF q) ∧ (qrowF q).v4 < 2^60 ∧ Scalar.eval5 (qrowF q) = q * L := by
   obtain ⟨row, r0, r1, r2, r3, r4⟩ := Mont.qRow q _ _ _ _ _ _ _ _ _ hq rfl rfl rfl rfl rfl rfl rfl rfl rfl
   refine ⟨⟨r0, r1, r2, r3, Nat.lt_trans r4 (by norm_num)⟩, r4, ?_⟩
-  rw [L_lit]
+  rw [Scalar.L_lit]
   exact row
 
 theorem qrowF_v2 (q : Nat) (hq : q < 2^64) : (qrowF q).v2 ≤ 1503914060200516822 := by
@@ -218,9 +218,9 @@ theorem qrowF_v2 (q : Nat) (hq : q < 2^64) : (qrowF q).v2 ≤ 150391406020051682
 theorem qcancel (x : Nat) : (x + (qrowF (qF x)).v0) % 2^64 = 0 :=
   Mont.montCancel x (qF x) _ rfl rfl
 
-theorem acc5_spec (c r : W5) (hc : Words5 c) (hr : Words5 r) :
-    Words5 (acc5 c r).1 ∧ (acc5 c r).2 ≤ 1 ∧
-      eval5 (acc5 c r).1 + (acc5 c r).2 * 2^320 = eval5 c + eval5 r := by
+theorem acc5_spec (c r : Scalar.W5) (hc : Scalar.Words5 c) (hr : Scalar.Words5 r) :
+    Scalar.Words5 (acc5 c r).1 ∧ (acc5 c r).2 ≤ 1 ∧
+      Scalar.eval5 (acc5 c r).1 + (acc5 c r).2 * 2^320 = Scalar.eval5 c + Scalar.eval5 r := by
   obtain ⟨c0, c1, c2, c3, c4⟩ := c
   obtain ⟨r0, r1, r2, r3, r4⟩ := r
   obtain ⟨hc0, hc1, hc2, hc3, hc4⟩ := hc
@@ -230,8 +230,8 @@ theorem acc5_spec (c r : W5) (hc : Words5 c) (hr : Words5 r) :
     hc0 hc1 hc2 hc3 hc4 hr0 hr1 hr2 hr3 hr4 rfl rfl rfl rfl rfl rfl rfl rfl rfl rfl
   exact ⟨⟨s0, s1, s2, s3, s4⟩, s5, e⟩
 
-theorem acc4_spec (c : W4) (r : W5) (hc : Words c) (hr : Words5 r) :
-    Words (acc4 c r).1 ∧ (acc4 c r).2 ≤ 1 ∧
+theorem acc4_spec (c : W4) (r : Scalar.W5) (hc : Scalar.Words c) (hr : Scalar.Words5 r) :
+    Scalar.Words (acc4 c r).1 ∧ (acc4 c r).2 ≤ 1 ∧
       eval (acc4 c r).1 + (acc4 c r).2 * 2^256 =
         eval c + (r.v0 + r.v1 * 2^64 + r.v2 * 2^128 + r.v3 * 2^192) := by
   obtain ⟨c0, c1, c2, c3⟩ := c
@@ -243,9 +243,9 @@ theorem acc4_spec (c : W4) (r : W5) (hc : Words c) (hr : Words5 r) :
     hc0 hc1 hc2 hc3 hr0 hr1 hr2 hr3 rfl rfl rfl rfl rfl rfl rfl rfl
   exact ⟨⟨s0, s1, s2, s3⟩, s4, e⟩
 
-theorem red5_spec (s m : W5) (hs : Words5 s) (hm : Words5 m) (hz : (s.v0 + m.v0) % 2^64 = 0) :
+theorem red5_spec (s m : Scalar.W5) (hs : Scalar.Words5 s) (hm : Scalar.Words5 m) (hz : (s.v0 + m.v0) % 2^64 = 0) :
     (red5 s m).v0 < 2^64 ∧ (red5 s m).v1 < 2^64 ∧ (red5 s m).v2 < 2^64 ∧ (red5 s m).v3 < 2^64 ∧
-      (red5 s m).v4 ≤ 1 ∧ eval5 (red5 s m) * 2^64 = eval5 s + eval5 m := by
+      (red5 s m).v4 ≤ 1 ∧ Scalar.eval5 (red5 s m) * 2^64 = Scalar.eval5 s + Scalar.eval5 m := by
   obtain ⟨c0, c1, c2, c3, c4⟩ := s
   obtain ⟨r0, r1, r2, r3, r4⟩ := m
   obtain ⟨hc0, hc1, hc2, hc3, hc4⟩ := hs
@@ -255,7 +255,7 @@ theorem red5_spec (s m : W5) (hs : Words5 s) (hm : Words5 m) (hz : (s.v0 + m.v0)
     hc0 hc1 hc2 hc3 hc4 hr0 hr1 hr2 hr3 hr4 hz rfl rfl rfl rfl rfl rfl rfl rfl rfl
   exact ⟨s0, s1, s2, s3, s4, e⟩
 
-theorem red4_spec (s : W4) (m : W5) (hs : Words s) (hm : Words5 m) (hz : (s.w0 + m.v0) % 2^64 = 0) :
+theorem red4_spec (s : W4) (m : Scalar.W5) (hs : Scalar.Words s) (hm : Scalar.Words5 m) (hz : (s.w0 + m.v0) % 2^64 = 0) :
     (red4 s m).w0 < 2^64 ∧ (red4 s m).w1 < 2^64 ∧ (red4 s m).w2 < 2^64 ∧ (red4 s m).w3 ≤ 1 ∧
       eval (red4 s m) * 2^64 = eval s + (m.v0 + m.v1 * 2^64 + m.v2 * 2^128 + m.v3 * 2^192) := by
   obtain ⟨c0, c1, c2, c3⟩ := s
@@ -270,11 +270,11 @@ theorem red4_spec (s : W4) (m : W5) (hs : Words s) (hm : Words5 m) (hz : (s.w0 +
 
 /-! ### `fiatScalarMul` -/
 
-def mulStep0 (a : Nat) (b : W4) : W5 :=
+def mulStep0 (a : Nat) (b : W4) : Scalar.W5 :=
   let r := rowF a b
   red5 r (qrowF (qF r.v0))
 
-def mulStep (a : Nat) (b : W4) (c : W5) : W5 :=
+def mulStep (a : Nat) (b : W4) (c : Scalar.W5) : Scalar.W5 :=
   let r := rowF a b
   let s := acc5 c r
   let t := red5 s.1 (qrowF (qF s.1.v0))
@@ -294,9 +294,9 @@ theorem step_bound (T' T AB QL a q B l : Nat) (ha : a < 2^64) (hq : q < 2^64)
   clear hab hql ha hq
   omega
 
-theorem mulStep0_spec (a : Nat) (b : W4) (ha : a < 2^64) (hb : Words b) :
-    Words5 (mulStep0 a b) ∧ eval5 (mulStep0 a b) < L + eval b ∧
-      ∃ q, eval5 (mulStep0 a b) * 2^64 = a * eval b + q * L := by
+theorem mulStep0_spec (a : Nat) (b : W4) (ha : a < 2^64) (hb : Scalar.Words b) :
+    Scalar.Words5 (mulStep0 a b) ∧ Scalar.eval5 (mulStep0 a b) < L + eval b ∧
+      ∃ q, Scalar.eval5 (mulStep0 a b) * 2^64 = a * eval b + q * L := by
   have hdef : mulStep0 a b = red5 (rowF a b) (qrowF (qF (rowF a b).v0)) := rfl
   rw [hdef]
   obtain ⟨rw_, re⟩ := rowF_spec a b ha hb
@@ -309,21 +309,21 @@ theorem mulStep0_spec (a : Nat) (b : W4) (ha : a < 2^64) (hb : Words b) :
   exact step_bound _ 0 _ _ a _ (eval b) L ha hq rfl rfl
     (Nat.lt_of_lt_of_le hLpos (Nat.le_add_right _ _)) (by rw [te, Nat.zero_add])
 
-theorem mulStep_key (rd s1 : W5) (sc C AB QL : Nat) (t4 : rd.v4 ≤ 1) (hsc : sc ≤ 1)
-    (se : eval5 s1 + sc * 2^320 = C + AB) (te : eval5 rd * 2^64 = eval5 s1 + QL) :
-    eval5 ⟨rd.v0, rd.v1, rd.v2, rd.v3, U.add 64 rd.v4 sc⟩ * 2^64 = C + AB + QL ∧
+theorem mulStep_key (rd s1 : Scalar.W5) (sc C AB QL : Nat) (t4 : rd.v4 ≤ 1) (hsc : sc ≤ 1)
+    (se : Scalar.eval5 s1 + sc * 2^320 = C + AB) (te : Scalar.eval5 rd * 2^64 = Scalar.eval5 s1 + QL) :
+    Scalar.eval5 ⟨rd.v0, rd.v1, rd.v2, rd.v3, U.add 64 rd.v4 sc⟩ * 2^64 = C + AB + QL ∧
       U.add 64 rd.v4 sc < 2^64 := by
   obtain ⟨r0, r1, r2, r3, r4⟩ := rd
-  simp only [eval5, U.add] at *
+  simp only [Scalar.eval5, U.add] at *
   have e : (r4 + sc) % 2^64 = r4 + sc := by omega
   rw [e]
-  generalize eval5 s1 = S at *
+  generalize Scalar.eval5 s1 = S at *
   omega
 
-theorem mulStep_spec (a : Nat) (b : W4) (c : W5) (ha : a < 2^64) (hb : Words b) (hc : Words5 c)
-    (hT : eval5 c < L + eval b) :
-    Words5 (mulStep a b c) ∧ eval5 (mulStep a b c) < L + eval b ∧
-      ∃ q, eval5 (mulStep a b c) * 2^64 = eval5 c + a * eval b + q * L := by
+theorem mulStep_spec (a : Nat) (b : W4) (c : Scalar.W5) (ha : a < 2^64) (hb : Scalar.Words b) (hc : Scalar.Words5 c)
+    (hT : Scalar.eval5 c < L + eval b) :
+    Scalar.Words5 (mulStep a b c) ∧ Scalar.eval5 (mulStep a b c) < L + eval b ∧
+      ∃ q, Scalar.eval5 (mulStep a b c) * 2^64 = Scalar.eval5 c + a * eval b + q * L := by
   obtain ⟨rw_, re⟩ := rowF_spec a b ha hb
   obtain ⟨sw, sc, se⟩ := acc5_spec c _ hc rw_
   have hq := qF_lt (acc5 c (rowF a b)).1.v0
@@ -347,17 +347,17 @@ theorem mont_combine (T1 T2 T3 T4 a0 a1 a2 a3 B q0 q1 q2 q3 l : Nat)
   linear_combination h1 + 2^64 * h2 + 2^128 * h3 + 2^192 * h4
 
 /-- general form: only the word bounds of `x` are needed -/
-theorem fiatMul_spec' (o x y : W4) (hx : Words x) (hy : Inv y) :
+theorem fiatMul_spec' (o x y : W4) (hx : Scalar.Words x) (hy : Inv y) :
     Inv (Fiat.fiatScalarMul o x y) ∧
       (eval (Fiat.fiatScalarMul o x y) * 2^256) % L = (eval x * eval y) % L := by
   rw [fiatScalarMul_eq]
-  have hb := inv_words hy
+  have hb := Scalar.inv_words hy
   obtain ⟨w1, b1, q0, e1⟩ := mulStep0_spec x.w0 y hx.1 hb
   obtain ⟨w2, b2, q1, e2⟩ := mulStep_spec x.w1 y _ hx.2.1 hb w1 b1
   obtain ⟨w3, b3, q2, e3⟩ := mulStep_spec x.w2 y _ hx.2.2.1 hb w2 b2
   obtain ⟨w4, b4, q3, e4⟩ := mulStep_spec x.w3 y _ hx.2.2.2 hb w3 b3
   have comb := mont_combine _ _ _ _ _ _ _ _ _ _ _ _ _ _ e1 e2 e3 e4
-  have hyl := inv_lt hy
+  have hyl := Scalar.inv_lt hy
   obtain ⟨ci, ce⟩ := csub_spec _ w4 (by omega)
   refine ⟨ci, ?_⟩
   rw [ce, Nat.mod_mul_mod, comb]
@@ -367,7 +367,7 @@ theorem fiatMul_spec' (o x y : W4) (hx : Words x) (hy : Inv y) :
 theorem fiatMul_spec (o x y : W4) (hx : Inv x) (hy : Inv y) :
     Inv (Fiat.fiatScalarMul o x y) ∧
       (eval (Fiat.fiatScalarMul o x y) * 2^256) % L = (eval x * eval y) % L :=
-  fiatMul_spec' o x y (inv_words hx) hy
+  fiatMul_spec' o x y (Scalar.inv_words hx) hy
 
 theorem fiatMul_receiver (o o' x y : W4) : Fiat.fiatScalarMul o x y = Fiat.fiatScalarMul o' x y := by
   rw [fiatScalarMul_eq, fiatScalarMul_eq]
@@ -391,14 +391,14 @@ def tmStep (a : Nat) (c : W4) : W4 :=
   let t := red4 s.1 m
   ⟨t.w0, t.w1, t.w2, U.add 64 (U.add 64 t.w3 (U.add 64 s.2 r.v4)) m.v4⟩
 
-def w4to5 (t : W4) : W5 := ⟨t.w0, t.w1, t.w2, t.w3, 0⟩
+def w4to5 (t : W4) : Scalar.W5 := ⟨t.w0, t.w1, t.w2, t.w3, 0⟩
 
 set_option maxRecDepth 100000 in
 theorem fiatScalarToMontgomery_eq (o x : W4) : Fiat.fiatScalarToMontgomery o x =
     csub (w4to5 (tmStep x.w3 (tmStep x.w2 (tmStep x.w1 (tmStep0 x.w0))))) := by
   kernel_rfl
 
-theorem toMontB_words : Words toMontB := by
+theorem toMontB_words : Scalar.Words toMontB := by
   refine ⟨?_, ?_, ?_, ?_⟩ <;> decide
 theorem toMontB_lt : eval toMontB < L := by decide
 set_option exponentiation.threshold 600 in
@@ -447,7 +447,7 @@ theorem tmStep0_key (t : W4) (r4 m4 S M0123 : Nat)
   omega
 
 theorem tmStep0_spec (a : Nat) (ha : a < 2^64) :
-    Words (tmStep0 a) ∧ eval (tmStep0 a) < L + eval toMontB ∧
+    Scalar.Words (tmStep0 a) ∧ eval (tmStep0 a) < L + eval toMontB ∧
       ∃ q, eval (tmStep0 a) * 2^64 = a * eval toMontB + q * L := by
   obtain ⟨rw_, re⟩ := rowF_spec a toMontB ha toMontB_words
   have r4 := rowF_toMontB_v4 a ha
@@ -464,8 +464,8 @@ theorem tmStep0_spec (a : Nat) (ha : a < 2^64) :
   exact step_bound _ 0 _ _ a _ (eval toMontB) L ha hq rfl rfl
     (Nat.lt_of_lt_of_le hLpos (Nat.le_add_right _ _)) (by rw [key', Nat.zero_add])
 
-theorem tmStep_spec (a : Nat) (c : W4) (ha : a < 2^64) (hc : Words c) (hT : eval c < L + eval toMontB) :
-    Words (tmStep a c) ∧ eval (tmStep a c) < L + eval toMontB ∧
+theorem tmStep_spec (a : Nat) (c : W4) (ha : a < 2^64) (hc : Scalar.Words c) (hT : eval c < L + eval toMontB) :
+    Scalar.Words (tmStep a c) ∧ eval (tmStep a c) < L + eval toMontB ∧
       ∃ q, eval (tmStep a c) * 2^64 = eval c + a * eval toMontB + q * L := by
   obtain ⟨rw_, re⟩ := rowF_spec a toMontB ha toMontB_words
   have r4 := rowF_toMontB_v4 a ha
@@ -481,14 +481,14 @@ theorem tmStep_spec (a : Nat) (c : W4) (ha : a < 2^64) (hc : Words c) (hT : eval
   refine ⟨⟨t0, t1, t2, k4⟩, ?_, _, key'⟩
   exact step_bound _ _ _ _ a _ (eval toMontB) L ha hq rfl rfl hT key'
 
-theorem coprime_L_R : Nat.Coprime L (2^256) := by
+theorem Scalar.coprime_L_R : Nat.Coprime L (2^256) := by
   apply Nat.Coprime.pow_right
   apply Nat.Coprime.symm
   rw [Nat.Prime.coprime_iff_not_dvd Nat.prime_two]
   decide
 
 /-- general form: only the word bounds of `x` are needed -/
-theorem toMontgomery_spec' (o x : W4) (hx : Words x) :
+theorem toMontgomery_spec' (o x : W4) (hx : Scalar.Words x) :
     Inv (Fiat.fiatScalarToMontgomery o x) ∧
       eval (Fiat.fiatScalarToMontgomery o x) % L = (eval x * 2^256) % L := by
   rw [fiatScalarToMontgomery_eq]
@@ -499,8 +499,8 @@ theorem toMontgomery_spec' (o x : W4) (hx : Words x) :
   have comb := mont_combine _ _ _ _ _ _ _ _ _ _ _ _ _ _ e1 e2 e3 e4
   have hBl := toMontB_lt
   generalize tmStep x.w3 (tmStep x.w2 (tmStep x.w1 (tmStep0 x.w0))) = T at *
-  have h5 : eval5 (w4to5 T) = eval T := by
-    simp only [w4to5, eval5, Scalar.eval]; omega
+  have h5 : Scalar.eval5 (w4to5 T) = eval T := by
+    simp only [w4to5, Scalar.eval5, Scalar.eval]; omega
   obtain ⟨ci, ce⟩ := csub_spec (w4to5 T) ⟨w4.1, w4.2.1, w4.2.2.1, w4.2.2.2, (by decide : (0:Nat) < 2^64)⟩ (by rw [h5]; omega)
   refine ⟨ci, ?_⟩
   rw [ce, h5, Nat.mod_mod]
@@ -510,12 +510,12 @@ theorem toMontgomery_spec' (o x : W4) (hx : Words x) :
     rw [comb]
     show (eval x * eval toMontB + _ * L) % L = _
     rw [Nat.add_mul_mod_self_right, toMontB_mod, Nat.mul_mod_mod, Nat.mul_assoc, ← pow_add]
-  exact Nat.ModEq.cancel_right_of_coprime coprime_L_R hmod
+  exact Nat.ModEq.cancel_right_of_coprime Scalar.coprime_L_R hmod
 
 theorem toMontgomery_spec (o x : W4) (hx : Inv x) :
     Inv (Fiat.fiatScalarToMontgomery o x) ∧
       eval (Fiat.fiatScalarToMontgomery o x) % L = (eval x * 2^256) % L :=
-  toMontgomery_spec' o x (inv_words hx)
+  toMontgomery_spec' o x (Scalar.inv_words hx)
 
 theorem toMontgomery_receiver (o o' x : W4) :
     Fiat.fiatScalarToMontgomery o x = Fiat.fiatScalarToMontgomery o' x := by
@@ -563,7 +563,7 @@ theorem fmStep0_core (a m0 m1 m2 m3 m4 c0 x14 x15 : Nat) (ha : a < 2^64)
   refine ⟨by omega, by omega, by omega⟩
 
 theorem fmStep0_spec (a : Nat) (ha : a < 2^64) :
-    Words (fmStep0 a) ∧ (fmStep0 a).w1 ≤ 1503914060200516823 ∧ eval (fmStep0 a) < L + 1 ∧
+    Scalar.Words (fmStep0 a) ∧ (fmStep0 a).w1 ≤ 1503914060200516823 ∧ eval (fmStep0 a) < L + 1 ∧
       ∃ q, eval (fmStep0 a) * 2^64 = a * 1 + q * L := by
   have hq := qF_lt a
   obtain ⟨mw, m4, me⟩ := qrowF_spec _ hq
@@ -587,8 +587,8 @@ theorem fmFinish_key (t : W4) (m4 S M0123 : Nat) (t3 : t.w3 ≤ 1) (hm4 : m4 < 2
   rw [e2]
   omega
 
-theorem fmFinish_spec (s : W4) (hs : Words s) :
-    Words (fmFinish s) ∧ eval (fmFinish s) * 2^64 = eval s + qF s.w0 * L := by
+theorem fmFinish_spec (s : W4) (hs : Scalar.Words s) :
+    Scalar.Words (fmFinish s) ∧ eval (fmFinish s) * 2^64 = eval s + qF s.w0 * L := by
   have hq := qF_lt s.w0
   obtain ⟨mw, m4, me⟩ := qrowF_spec _ hq
   obtain ⟨t0, t1, t2, t3, te⟩ := red4_spec s _ hs mw (qcancel _)
@@ -607,9 +607,9 @@ theorem fmStep1_core (c0 c1 c2 c3 a x16 x17 : Nat) (ha : a < 2^64) (h0 : c0 < 2^
   rw [e]
   refine ⟨by omega, by omega, by omega⟩
 
-theorem fmStep1_spec (a : Nat) (c : W4) (ha : a < 2^64) (hc : Words c) (hc1 : c.w1 ≤ 1503914060200516823)
+theorem fmStep1_spec (a : Nat) (c : W4) (ha : a < 2^64) (hc : Scalar.Words c) (hc1 : c.w1 ≤ 1503914060200516823)
     (hT : eval c < L + 1) :
-    Words (fmStep1 a c) ∧ eval (fmStep1 a c) < L + 1 ∧
+    Scalar.Words (fmStep1 a c) ∧ eval (fmStep1 a c) < L + 1 ∧
       ∃ q, eval (fmStep1 a c) * 2^64 = eval c + a * 1 + q * L := by
   obtain ⟨c0, c1, c2, c3⟩ := c
   obtain ⟨h0, h1, h2, h3⟩ := hc
@@ -643,14 +643,14 @@ theorem top_le (c0 c1 c2 c3 : Nat)
     c3 ≤ 1152921504606846976 := by
   omega
 
-theorem fmStep_spec (a : Nat) (c : W4) (ha : a < 2^64) (hc : Words c) (hT : eval c < L + 1) :
-    Words (fmStep a c) ∧ eval (fmStep a c) < L + 1 ∧
+theorem fmStep_spec (a : Nat) (c : W4) (ha : a < 2^64) (hc : Scalar.Words c) (hT : eval c < L + 1) :
+    Scalar.Words (fmStep a c) ∧ eval (fmStep a c) < L + 1 ∧
       ∃ q, eval (fmStep a c) * 2^64 = eval c + a * 1 + q * L := by
   obtain ⟨c0, c1, c2, c3⟩ := c
   obtain ⟨h0, h1, h2, h3⟩ := hc
   simp only at h0 h1 h2 h3
   have h3' : c3 ≤ 1152921504606846976 := by
-    have := hT; rw [L_lit] at this
+    have := hT; rw [Scalar.L_lit] at this
     exact top_le c0 c1 c2 c3 this
   obtain ⟨se, s0, s1, s2, s3⟩ := fmStep_core c0 c1 c2 c3 a _ _ _ _ _ _ ha h0 h1 h2 h3' rfl rfl rfl rfl rfl rfl
   obtain ⟨fw, fe⟩ := fmFinish_spec ⟨(Bits.Add64 c0 a 0).1, (Bits.Add64 c1 0 (Bits.Add64 c0 a 0).2).1,
@@ -665,7 +665,7 @@ theorem fmStep_spec (a : Nat) (c : W4) (ha : a < 2^64) (hc : Words c) (hT : eval
   exact ⟨fw, step_bound _ _ _ _ a _ 1 L ha (qF_lt _) rfl rfl hT key, _, key⟩
 
 /-- general form: only the word bounds of `x` are needed -/
-theorem fromMontgomery_spec' (o x : W4) (hx : Words x) :
+theorem fromMontgomery_spec' (o x : W4) (hx : Scalar.Words x) :
     Inv (Fiat.fiatScalarFromMontgomery o x) ∧
       (eval (Fiat.fiatScalarFromMontgomery o x) * 2^256) % L = eval x % L := by
   rw [fiatScalarFromMontgomery_eq]
@@ -675,8 +675,8 @@ theorem fromMontgomery_spec' (o x : W4) (hx : Words x) :
   obtain ⟨w4, b4, q3, e4⟩ := fmStep_spec x.w3 _ hx.2.2.2 w3 b3
   have comb := mont_combine _ _ _ _ _ _ _ _ _ _ _ _ _ _ e1 e2 e3 e4
   generalize fmStep x.w3 (fmStep x.w2 (fmStep1 x.w1 (fmStep0 x.w0))) = T at *
-  have h5 : eval5 (w4to5 T) = eval T := by
-    simp only [w4to5, eval5, Scalar.eval]; omega
+  have h5 : Scalar.eval5 (w4to5 T) = eval T := by
+    simp only [w4to5, Scalar.eval5, Scalar.eval]; omega
   have hL1 : 1 ≤ L := by decide
   obtain ⟨ci, ce⟩ := csub_spec (w4to5 T) ⟨w4.1, w4.2.1, w4.2.2.1, w4.2.2.2, (by decide : (0:Nat) < 2^64)⟩
     (by rw [h5]; omega)
@@ -688,7 +688,7 @@ theorem fromMontgomery_spec' (o x : W4) (hx : Words x) :
 theorem fromMontgomery_spec (o x : W4) (hx : Inv x) :
     Inv (Fiat.fiatScalarFromMontgomery o x) ∧
       (eval (Fiat.fiatScalarFromMontgomery o x) * 2^256) % L = eval x % L :=
-  fromMontgomery_spec' o x (inv_words hx)
+  fromMontgomery_spec' o x (Scalar.inv_words hx)
 
 theorem fromMontgomery_receiver (o o' x : W4) :
     Fiat.fiatScalarFromMontgomery o x = Fiat.fiatScalarFromMontgomery o' x := by
